@@ -167,6 +167,10 @@ int main(void) {
                 } else if (!strcmp(op, "addstr")) {
                     arg_t a = mkstr(a1); bool r = g->addstr(g, a.p); int e = errno; rmarg(a);
                     if (r) printf("ok"); else printf("fail %s", ename(e));
+                } else if (!strcmp(op, "addstrf")) {
+                    /* the formatted variant must add exactly the formatted text: "%s" of the text, or "%.*s" of a longer buffer */
+                    arg_t a = mkstr(a1); size_t n = strlen(a.p); bool r = (n & 1) ? g->addstrf(g, "%.*s", (int)n, (char *)a.p) : g->addstrf(g, "%s", (char *)a.p); int e = errno; rmarg(a);
+                    if (r) printf("ok"); else printf("fail %s", ename(e));
                 } else if (!strcmp(op, "size")) { printf("num %zu", g->size(g));
                 } else if (!strcmp(op, "datasize")) { printf("num %zu", g->datasize(g));
                 } else if (!strcmp(op, "toarray")) { size_t sz = SENT; void *d = g->toarray(g, &sz); do_toarray(d, sz, errno);
